@@ -14,7 +14,7 @@ def XOp.keepsNames : XOp → Bool
 
 /-- operations of the extension that write nothing at all -/
 def XOp.readOnly : XOp → Bool
-  | .base _ | .setAllParamsA .. | .setParamsA .. => false
+  | .base _ | .setAllParamsA .. | .setParamsA .. | .apCopy .. => false
   | _ => true
 
 /-! ### `setNamespace` -/
@@ -38,8 +38,10 @@ def clauseNamespace (n : Nat) (b : State) (op : Op) (a : State) : Bool :=
   | .apNamespace .. => !(allNamesUnique n b) || allNamesUnique n a
   | _ => true
 
-/-- clause `names_unique_namespace_partial`: the same under `nsGuard` — this one is a theorem of
-the model (`names_unique_namespace_partial`), a failure is never a known finding -/
+/-- clause `names_unique_namespace_partial`: the same under `nsGuard` over the first `n` registers.
+The theorem of the model (`names_unique_namespace_partial`, `clauseNamespaceGuarded_sound`) has the
+guard over *all* registers (`XOp.nsSafe`) and `Inv`; the two coincide when the machine has `n`
+registers, as the driver's has (6).  A failure of this clause is never a known finding. -/
 def clauseNamespaceGuarded (n : Nat) (b : State) (op : Op) (a : State) : Bool :=
   match op with
   | .apNamespace k _ => !(allNamesUnique n b && nsGuard n b k) || allNamesUnique n a
@@ -163,6 +165,15 @@ def clauseXAssign (n : Nat) (b : State) (op : XOp) (out : XOut) (a : State) : Bo
      else unchanged n b a)
   | _ => true
 
+/-- clause `owner_copy_independent`: a copied owner holds fresh, pairwise different objects showing
+the source's parameters, has the source's prefix, and nothing else changed -/
+def clauseXOwnerCopy (n : Nat) (b : State) (op : XOp) (out : XOut) (a : State) : Bool :=
+  match op with
+  | .apCopy k j =>
+    out == .base .ok && freshWith b a j ((b.lists k).map b.heap.get) && a.pre j == b.pre k &&
+    (List.range n).all (fun r => r == j || (a.lists r == b.lists r && a.pre r == b.pre r)) && sameObjs b a
+  | _ => true
+
 /-- all clauses of the extended machine; `none` = every clause holds -/
 def xcheckStep (n : Nat) (b : State) (op : XOp) (out : XOut) (fired : Option (List ObjId)) (a : State) :
     Option String :=
@@ -186,6 +197,7 @@ def xcheckStep (n : Nat) (b : State) (op : XOp) (out : XOut) (fired : Option (Li
     else if !(!op.readOnly || unchanged n b a) then some "lookup_pure"
     else if !clauseXLookup b op out then some "lookup_exact"
     else if !clauseXAssign n b op out a then some "whole_assignment_atomic"
+    else if !clauseXOwnerCopy n b op out a then some "owner_copy_independent"
     else none
 
 end Bpp.ParamList
